@@ -422,6 +422,34 @@ def run(chk: Check, eng: Engine) -> None:
                     keyparts=f"index-into-empty|{sub}")
     chk.ok("R19-h", NAV + ".*", 0, f"{n_guards} early-exit guard(s) over sequence lengths examined; none is followed by an index into a sequence it proved empty")
 
+    # ---- R19-i ---------------------------------------------------------------
+    # the forecaster (and the prefix parser) see a computed bound only through Repetition.bounds_constraint: every construction site links it
+    chk.rule("R19-i", "every RepetitionBoundsConstraint the spec reader builds is stored on its repetition node before the node is returned", floor=2)
+    gpc = eng.cls("fandango.language.parse.convert", "GrammarProcessor")
+    n_i = 0
+    for m in gpc.methods.values():
+        ctor = [n for n in walk_local(m.node) if isinstance(n, ast.Assign) and isinstance(n.value, ast.Call) and call_name(n.value) == "RepetitionBoundsConstraint"
+                and isinstance(n.targets[0], ast.Name)]
+        if not ctor:
+            continue
+        mcfg = eng.cfg(m)
+        for a in ctor:
+            n_i += 1
+            var = a.targets[0].id
+            start = mcfg.nodes_of(a)
+            links = [n.id for n in mcfg.nodes if n.kind == "stmt" and isinstance(n.ast, ast.Assign) and isinstance(n.ast.value, ast.Name) and n.ast.value.id == var
+                     and any(isinstance(t_, ast.Attribute) and t_.attr == "bounds_constraint" for t_ in n.ast.targets)]
+            rets = [n.id for n in mcfg.nodes if n.kind == "stmt" and isinstance(n.ast, ast.Return)]
+            p_ = mcfg.find_path(start[0], rets, avoid=links, ignore=("exc-out", "raise-out")) if start else None
+            if links and p_ is None:
+                chk.ok("R19-i", m.fq, a.lineno, f"`{var} = RepetitionBoundsConstraint(...)` is stored in `<node>.bounds_constraint` on every path to the return")
+            else:
+                chk.bad("R19-i", eng.relfile(m), a.lineno, m.fq, f"`{var} = RepetitionBoundsConstraint(...)` can reach `return` without being stored on the repetition node",
+                        "the repetition looks like a plain bounded one to the prefix parser and the forecaster: computed bounds of this form are ignored when continuations are offered",
+                        path=mcfg.describe_path(p_) if p_ else [], keyparts="bounds-constraint-not-linked")
+    if n_i < 2:
+        raise AnalysisError(f"only {n_i} construction site(s) of RepetitionBoundsConstraint found in GrammarProcessor")
+
     # ---- R19-e ---------------------------------------------------------------
     pf = eng.cls(f"{NAV}.packetforecaster", "PathFinder")
     on = eng.method(pf, "onNonTerminalNodeVisit", inherited=False)
@@ -499,6 +527,7 @@ MUTANTS = [
       "            for alt in node.alternatives:\n                continue_exploring = continue_exploring or self.visit(alt)\n", "R19-c"),
     M("unfinished-round-does-not-end-the-walk", _CNV, "            if not continue_exploring:\n                # The last round present in the history is unfinished: what follows\n                # the repetition cannot come before that round is complete.\n                return False\n", "", "R19-g"),
     M("prefix-frame-test-inverted", _CNV, "                if tree_list is None or len(tree_list) == 0:\n                    continue\n", "                if tree_list is None or len(tree_list) != 0:\n                    continue\n", "R19-h"),
+    M("comma-form-bounds-not-linked", "src/fandango/language/parse/convert.py", "                bounds_constraint.repetition_node = rep_node\n                rep_node.bounds_constraint = bounds_constraint\n", "                bounds_constraint.repetition_node = rep_node\n", "R19-i"),
     M("one-round-too-many", _CNV, "        if continue_exploring and tree_len < rep_max:\n", "        if continue_exploring and tree_len <= rep_max:\n", "R19-d"),
     M("leave-before-minimum", _CNV, "        if tree_len >= rep_min:\n            return True\n", "        if tree_len + 1 >= rep_min:\n            return True\n", "R19-d"),
     M("bounds-swapped", _CNV, "        rep_min = node.min\n        rep_max = node.max\n", "        rep_min = node.max\n        rep_max = node.min\n", "R19-d"),
